@@ -411,3 +411,615 @@ Proof.
       unfold xexec in X2. rewrite X2. reflexivity. }
     apply (agree_weaken (idx res) n1); [lia|exact A].
 Qed.
+
+(** ---- try/catch/finally: the two halves of the Python statement, named ---- *)
+Definition py_r1 (m : nat) (F : frame) (body : list xstmt) (handler : option (N * pname * list xstmt))
+  : option (sout * frame * trace) :=
+  match xexec m F body with
+  | Some (Exc c p, F1, t1) =>
+      match handler with
+      | Some (hc, x, hb) =>
+          if catches hc c then
+            match xexec m (set F1 x (VExc c p)) hb with
+            | Some (o, F2, t2) => Some (o, unset F2 x, t1 ++ t2)
+            | None => None
+            end
+          else Some (Exc c p, F1, t1)
+      | None => Some (Exc c p, F1, t1)
+      end
+  | other => other
+  end.
+
+Definition py_fin (m : nat) (r1 : option (sout * frame * trace)) (fin : list xstmt) :=
+  match r1 with
+  | Some (o, F1, t1) =>
+      match xexec m F1 fin with
+      | Some (Normal, F2, t2) => Some (o, F2, t1 ++ t2)
+      | Some (o2, F2, t2) => Some (o2, F2, t1 ++ t2)
+      | None => None
+      end
+  | None => None
+  end.
+
+Lemma xexec1_S_try m F b h f : xexec1 (S m) F (XSTry b h f) = py_fin m (py_r1 m F b h) f.
+Proof. reflexivity. Qed.
+
+Lemma py_r1_mono m m' F b h r : (m <= m')%nat -> py_r1 m F b h = Some r -> py_r1 m' F b h = Some r.
+Proof.
+  intros L H. unfold py_r1 in *.
+  destruct (xexec m F b) as [[[o F1] t1]|] eqn:E; [|discriminate].
+  rewrite (xexec_mono m m' _ _ _ L E).
+  destruct o; try exact H.
+  destruct h as [[[hc x] hb]|]; [|exact H].
+  destruct (catches hc cls); [|exact H].
+  destruct (xexec m (set F1 x (VExc cls payload)) hb) as [[[o2 F2] t2]|] eqn:E2; [|discriminate].
+  rewrite (xexec_mono m m' _ _ _ L E2). exact H.
+Qed.
+
+Definition src_r1 (fuel : nat) (rho : env) (body : xexpr) (h : option (N * N)) (hb : xexpr) :=
+  match xeval fuel rho body with
+  | Some (OExc c p, t1) =>
+      match h with
+      | Some (hc, x) =>
+          if catches hc c then
+            match xeval fuel (upd rho x (VExc c p)) hb with
+            | Some (ORec _, _) => None
+            | Some (o, t2) => Some (o, t1 ++ t2)
+            | None => None
+            end
+          else Some (OExc c p, t1)
+      | None => Some (OExc c p, t1)
+      end
+  | Some (ORec _, _) => None
+  | other => other
+  end.
+
+Definition src_try (fuel : nat) (rho : env) (body : xexpr) (h : option (N * N)) (hb : xexpr) (hasfin : bool) (fe : xexpr) :=
+  if negb hasfin then src_r1 fuel rho body h hb else
+    match src_r1 fuel rho body h hb with
+    | Some (o, t1) =>
+        match xeval fuel rho fe with
+        | Some (OVal _, t2) => Some (o, t1 ++ t2)
+        | Some (OExc c p, t2) => Some (OExc c p, t1 ++ t2)
+        | _ => None
+        end
+    | None => None
+    end.
+
+Lemma xeval_S_try fuel rho body h hb hasfin fe :
+  xeval (S fuel) rho (XTry body h hb hasfin fe) = src_try fuel rho body h hb hasfin fe.
+Proof. reflexivity. Qed.
+
+Lemma xgen_try_inv sg lp n body h hb hasfin fe d pe n' :
+  xgen sg lp n (XTry body h hb hasfin fe) = (d, pe, n', true) ->
+  exists db eb n1 hh n2 f,
+    xgen sg lp (n + 1) body = (db, eb, n1, true) /\
+    match h with
+    | Some (cls, x) =>
+        exists dh eh, xgen (upd sg x (NLocal x n1)) lp (n1 + 1) hb = (dh, eh, n2, true) /\
+                      hh = Some (cls, NLocal x n1, dh ++ [XAssign (NTemp n) eh])
+    | None => hh = None /\ n2 = n1
+    end /\
+    (if hasfin then exists df ef, xgen sg lp n2 fe = (df, ef, n', true) /\ f = df ++ [XExpr ef]
+     else f = [] /\ n' = n2) /\
+    d = [XSTry (db ++ [XAssign (NTemp n) eb]) hh f] /\ pe = PName (NTemp n) /\
+    n + 1 <= n1 /\ n1 <= n2 /\ n2 <= n'.
+Proof.
+  intro G. cbn [xgen] in G. cbv zeta in G.
+  destruct (xgen sg lp (n + 1) body) as [[[db eb] n1] k1] eqn:Gb.
+  pose proof (xgen_mono _ _ _ _ _ _ _ _ Gb) as Lb.
+  destruct h as [[cls x]|].
+  - cbv zeta in G.
+    destruct (xgen (upd sg x (NLocal x n1)) lp (n1 + 1) hb) as [[[dh eh] n2] k2] eqn:Gh.
+    pose proof (xgen_mono _ _ _ _ _ _ _ _ Gh) as Lh.
+    destruct hasfin.
+    + destruct (xgen sg lp n2 fe) as [[[df ef] n3] k3] eqn:Gf.
+      pose proof (xgen_mono _ _ _ _ _ _ _ _ Gf) as Lf.
+      cbv beta iota in G. injection G as G1 G2 G3 Hk. subst.
+      apply andb_true_iff in Hk as [Hk _]. apply andb_true_iff in Hk as [Hk Hk3].
+      apply andb_true_iff in Hk as [Hk1 Hk2]. subst.
+      exists db, eb, n1, (Some (cls, NLocal x n1, dh ++ [XAssign (NTemp n) eh])), n2, (df ++ [XExpr ef]).
+      split; [reflexivity|]. split; [exists dh, eh; auto|]. split; [exists df, ef; auto|].
+      repeat split; lia.
+    + cbv beta iota in G. injection G as G1 G2 G3 Hk. subst.
+      apply andb_true_iff in Hk as [Hk _]. apply andb_true_iff in Hk as [Hk Hk3].
+      apply andb_true_iff in Hk as [Hk1 Hk2]. subst.
+      exists db, eb, n1, (Some (cls, NLocal x n1, dh ++ [XAssign (NTemp n) eh])), n', [].
+      split; [reflexivity|]. split; [exists dh, eh; auto|]. split; [auto|].
+      repeat split; lia.
+  - destruct hasfin.
+    + destruct (xgen sg lp n1 fe) as [[[df ef] n3] k3] eqn:Gf.
+      pose proof (xgen_mono _ _ _ _ _ _ _ _ Gf) as Lf.
+      cbv beta iota in G. injection G as G1 G2 G3 Hk. subst.
+      apply andb_true_iff in Hk as [Hk _]. apply andb_true_iff in Hk as [Hk Hk3].
+      apply andb_true_iff in Hk as [Hk1 Hk2]. subst.
+      exists db, eb, n1, None, n1, (df ++ [XExpr ef]).
+      split; [reflexivity|]. split; [auto|]. split; [exists df, ef; auto|].
+      repeat split; lia.
+    + cbv beta iota in G. injection G as G1 G2 G3 Hk. subst.
+      apply andb_true_iff in Hk as [Hk _]. apply andb_true_iff in Hk as [Hk Hk3].
+      apply andb_true_iff in Hk as [Hk1 Hk2]. subst.
+      exists db, eb, n', None, n', [].
+      split; [reflexivity|]. split; [auto|]. split; [auto|].
+      repeat split; lia.
+Qed.
+
+Lemma res_not_local n x k : pname_eqb (NTemp n) (NLocal x k) = false.
+Proof.
+  destruct (pname_eqb (NTemp n) (NLocal x k)) eqn:E; [|reflexivity].
+  apply pname_eqb_eq in E. discriminate.
+Qed.
+
+(** the protected part of a try: body, and the handler when the body's exception is caught *)
+Lemma try_r1_sim fuel : xsim fuel ->
+  forall rho sg lp F n body h hb db eb n1 n2 o t hh,
+    R2 rho sg F n ->
+    xgen sg lp (n + 1) body = (db, eb, n1, true) ->
+    match h with
+    | Some (cls, x) =>
+        exists dh eh, xgen (upd sg x (NLocal x n1)) lp (n1 + 1) hb = (dh, eh, n2, true) /\
+                      hh = Some (cls, NLocal x n1, dh ++ [XAssign (NTemp n) eh])
+    | None => hh = None /\ n2 = n1
+    end ->
+    src_r1 fuel rho body h hb = Some (o, t) ->
+    exists m F1,
+      match o with
+      | OVal v => py_r1 m F (db ++ [XAssign (NTemp n) eb]) hh = Some (Normal, F1, t) /\ F1 (NTemp n) = Some v
+      | OExc c p => py_r1 m F (db ++ [XAssign (NTemp n) eb]) hh = Some (Exc c p, F1, t)
+      | ORec _ => False
+      end /\ agree_below n F F1.
+Proof.
+  intros HS rho sg lp F n body h hb db eb n1 n2 o t hh HR Gb Hh Hsrc.
+  set (res := NTemp n) in *.
+  assert (HR0 : R2 rho sg F (n + 1)) by (eapply R2_mono; [exact HR|lia|apply agree_refl]).
+  pose proof (xgen_mono _ _ _ _ _ _ _ _ Gb) as Lb.
+  unfold src_r1 in Hsrc.
+  destruct (xeval fuel rho body) as [[[vb|vs|cb pb] tb]|] eqn:Eb; try discriminate.
+  - (* the body yields a value *)
+    inversion Hsrc; subst; clear Hsrc.
+    destruct (HS body sg lp (n + 1) rho F (OVal vb) t db eb n1 HR0 Eb Gb)
+      as (L1 & m1 & F1 & tb1 & tb2 & X & P & T & A & Nb).
+    exists (Nat.max m1 1), (set F1 res vb).
+    assert (Xs : xexec (Nat.max m1 1) F (db ++ [XAssign res eb]) = Some (Normal, set F1 res vb, tb1 ++ tb2)).
+    { eapply xexec_seq; [exact X|].
+      rewrite xexec_cons, (xexec1_S_assign 0 F1 res eb vb tb2 P), xexec_nil, app_nil_r. reflexivity. }
+    split; [split; [unfold py_r1; rewrite Xs, T; reflexivity|apply set_same]|].
+    apply (agree_trans n n F F1 (set F1 res vb)); [apply N.le_refl|apply (agree_weaken n (n + 1)); [lia|exact A]|].
+    apply agree_set. unfold res. simpl. lia.
+  - (* the body raises *)
+    destruct (HS body sg lp (n + 1) rho F (OExc cb pb) tb db eb n1 HR0 Eb Gb) as (L1 & m1 & F1 & X & A).
+    assert (Xs : xexec m1 F (db ++ [XAssign res eb]) = Some (Exc cb pb, F1, tb))
+      by (apply xexec_stop; [discriminate|exact X]).
+    assert (A0 : agree_below n F F1) by (apply (agree_weaken n (n + 1)); [lia|exact A]).
+    destruct h as [[cls x]|].
+    + destruct Hh as (dh & eh & Gh & ->).
+      destruct (catches cls cb) eqn:Ec.
+      * set (p := NLocal x n1) in *. set (ex := VExc cb pb) in *.
+        assert (HR1 : R2 (upd rho x ex) (upd sg x p) (set F1 p ex) (n1 + 1)).
+        { eapply (R2_let rho sg F n x ex p n1 F1); [exact HR|lia|exact A0|reflexivity]. }
+        assert (Ap : agree_below n F (set F1 p ex)).
+        { apply (agree_trans n n F F1 (set F1 p ex)); [apply N.le_refl|exact A0|]. apply agree_set. unfold p. simpl. lia. }
+        destruct (xeval fuel (upd rho x ex) hb) as [[[vh|?|ch ph] th]|] eqn:Eh; try discriminate.
+        -- inversion Hsrc; subst; clear Hsrc.
+           destruct (HS hb (upd sg x p) lp (n1 + 1) (upd rho x ex) (set F1 p ex) (OVal vh) th dh eh n2 HR1 Eh Gh)
+             as (L2 & m2 & F2 & th1 & th2 & X2 & P2 & T2 & A2 & N2).
+           assert (Xh : xexec (Nat.max m2 1) (set F1 p ex) (dh ++ [XAssign res eh]) = Some (Normal, set F2 res vh, th1 ++ th2)).
+           { eapply xexec_seq; [exact X2|].
+             rewrite xexec_cons, (xexec1_S_assign 0 F2 res eh vh th2 P2), xexec_nil, app_nil_r. reflexivity. }
+           exists (Nat.max m1 (Nat.max m2 1)), (unset (set F2 res vh) p).
+           split; [split|].
+           ++ unfold py_r1.
+              rewrite (xexec_mono m1 _ _ _ _ (Nat.le_max_l _ _) Xs), Ec. fold ex.
+              rewrite (xexec_mono _ (Nat.max m1 (Nat.max m2 1)) _ _ _ (Nat.le_max_r _ _) Xh), T2. reflexivity.
+           ++ unfold unset, res, p. rewrite res_not_local. apply set_same.
+           ++ apply (agree_trans n n F (set F2 res vh) _); [apply N.le_refl| |apply agree_unset; unfold p; simpl; lia].
+              apply (agree_trans n n F F2 _); [apply N.le_refl| |apply agree_set; unfold res; simpl; lia].
+              apply (agree_trans n n F (set F1 p ex) F2); [apply N.le_refl|exact Ap|].
+              apply (agree_weaken n (n1 + 1)); [lia|exact A2].
+        -- inversion Hsrc; subst; clear Hsrc.
+           destruct (HS hb (upd sg x p) lp (n1 + 1) (upd rho x ex) (set F1 p ex) (OExc ch ph) th dh eh n2 HR1 Eh Gh)
+             as (L2 & m2 & F2 & X2 & A2).
+           assert (Xh : xexec m2 (set F1 p ex) (dh ++ [XAssign res eh]) = Some (Exc ch ph, F2, th))
+             by (apply xexec_stop; [discriminate|exact X2]).
+           exists (Nat.max m1 m2), (unset F2 p).
+           split.
+           ++ unfold py_r1.
+              rewrite (xexec_mono m1 _ _ _ _ (Nat.le_max_l _ _) Xs), Ec. fold ex.
+              rewrite (xexec_mono m2 (Nat.max m1 m2) _ _ _ (Nat.le_max_r _ _) Xh). reflexivity.
+           ++ apply (agree_trans n n F F2 _); [apply N.le_refl| |apply agree_unset; unfold p; simpl; lia].
+              apply (agree_trans n n F (set F1 p ex) F2); [apply N.le_refl|exact Ap|].
+              apply (agree_weaken n (n1 + 1)); [lia|exact A2].
+      * inversion Hsrc; subst; clear Hsrc.
+        exists m1, F1. split; [|exact A0]. unfold py_r1. rewrite Xs, Ec. reflexivity.
+    + destruct Hh as [-> _]. inversion Hsrc; subst; clear Hsrc.
+      exists m1, F1. split; [|exact A0]. unfold py_r1. rewrite Xs. reflexivity.
+Qed.
+
+Lemma xexec_single m F s o F' t : xexec1 m F s = Some (o, F', t) -> xexec m F [s] = Some (o, F', t).
+Proof. intro H. rewrite xexec_cons, H. destruct o; rewrite ?xexec_nil, ?app_nil_r; reflexivity. Qed.
+
+(** the simulation, followed by the assignment of the inline expression to a result name *)
+Lemma xsim_into fuel : xsim fuel ->
+  forall e sg lp n rho F o tr d pe n' res k,
+    R2 rho sg F n -> xeval fuel rho e = Some (o, tr) -> xgen sg lp n e = (d, pe, n', true) ->
+    k <= idx res -> k <= n ->
+    n <= n' /\
+    match o with
+    | OVal v => exists m F', xexec m F (d ++ [XAssign res pe]) = Some (Normal, F', tr) /\ F' res = Some v /\
+                             agree_below k F F'
+    | ORec vs => length vs = length lp ->
+                 exists m F' F'', xexec m F (d ++ [XAssign res pe]) = Some (Cont, F'', tr) /\
+                                  agree_below k F F' /\ set_all F' lp vs = Some F''
+    | OExc c p => exists m F', xexec m F (d ++ [XAssign res pe]) = Some (Exc c p, F', tr) /\ agree_below k F F'
+    end.
+Proof.
+  intros HS e sg lp n rho F o tr d pe n' res k HR He Hg Lk Lk2.
+  destruct (HS e sg lp n rho F o tr d pe n' HR He Hg) as (L & Hrest). split; [exact L|].
+  destruct o as [v|vs|c p].
+  - destruct Hrest as (m & F' & t1 & t2 & X & P & T & A & Nb).
+    exists (Nat.max m 1), (set F' res v). split.
+    { subst tr. eapply xexec_seq; [exact X|].
+      rewrite xexec_cons, (xexec1_S_assign 0 F' res pe v t2 P), xexec_nil, app_nil_r. reflexivity. }
+    split; [apply set_same|].
+    apply (agree_trans k k F F' _); [apply N.le_refl|apply (agree_weaken k n); [lia|exact A]|apply agree_set; exact Lk].
+  - intro Hlen. destruct (Hrest Hlen) as (m & F' & F'' & X & A & Sa). exists m, F', F''.
+    split; [apply xexec_stop; [discriminate|exact X]|].
+    split; [apply (agree_weaken k n); [lia|exact A]|exact Sa].
+  - destruct Hrest as (m & F' & X & A). exists m, F'.
+    split; [apply xexec_stop; [discriminate|exact X]|apply (agree_weaken k n); [lia|exact A]].
+Qed.
+
+Theorem xsim_all : forall fuel, xsim fuel.
+Proof.
+  induction fuel as [fuel IH] using lt_wf_ind.
+  destruct fuel as [|fuel]; [intros e sg lp n rho F o tr d pe n' HR He; discriminate|].
+  assert (HS : xsim fuel) by (apply IH; lia).
+  pose proof (xsim_list_of fuel HS) as HL.
+  pose proof (xsim_binds_of fuel HS) as HB.
+  pose proof (xsim_into fuel HS) as HI.
+  intros e sg lp n rho F o tr d pe n' HR He Hg.
+  destruct e as [c|x|c t e|s r|x i b|f args|binds body|args|e|body h hb hasfin fe].
+  - (* const *)
+    cbn [xeval] in He. inversion He; subst. cbn [xgen] in Hg. inversion Hg; subst.
+    split; [lia|]. exists 1%nat, F, [], []. simpl. repeat split; auto using agree_refl.
+  - (* local *)
+    cbn [xeval] in He.
+    destruct (rho x) as [vx|] eqn:Ex; [|discriminate]. inversion He; subst; clear He.
+    cbn [xgen] in Hg. inversion Hg; subst; clear Hg.
+    destruct (proj1 HR x vx Ex) as (p & Hs & Hi & Hf). rewrite Hs.
+    split; [lia|]. exists 1%nat, F, [], []. simpl. rewrite Hf. repeat split; auto using agree_refl.
+    apply N.ltb_lt. exact Hi.
+  - (* if *)
+    cbn [xeval] in He. cbn [xgen] in Hg.
+    destruct (xgen sg lp n c) as [[[dc ec] n1] k1] eqn:Gc.
+    destruct (xgen sg lp (n1 + 2) t) as [[[dt et] n2] k2] eqn:Gt.
+    destruct (xgen sg lp n2 e) as [[[de ee] n3] k3] eqn:Ge.
+    cbv beta iota zeta in Hg. injection Hg as Hg1 Hg2 Hg3 Hk. subst.
+    apply andb_true_iff in Hk as [Hk Hk3]. apply andb_true_iff in Hk as [Hk1 Hk2]. subst.
+    pose proof (xgen_mono _ _ _ _ _ _ _ _ Gc) as Lc.
+    pose proof (xgen_mono _ _ _ _ _ _ _ _ Gt) as Lt.
+    pose proof (xgen_mono _ _ _ _ _ _ _ _ Ge) as Le.
+    split; [lia|].
+    destruct (xeval fuel rho c) as [[[vc|?|cc pc] tc]|] eqn:Ec; try discriminate.
+    + destruct (HS c sg lp n rho F (OVal vc) tc dc ec n1 HR Ec Gc)
+        as (L1 & m1 & F1 & tc1 & tc2 & X1 & P1 & T1 & A1 & N1).
+      set (test := NTemp n1) in *. set (res := NTemp (n1 + 1)) in *.
+      set (F1' := set F1 test vc).
+      assert (A1' : agree_below n F F1').
+      { apply (agree_trans n n F F1 F1'); [apply N.le_refl|exact A1|]. apply agree_set. unfold test. simpl. lia. }
+      assert (Xt : xexec (Nat.max m1 1) F (dc ++ [XAssign test ec]) = Some (Normal, F1', tc1 ++ tc2)).
+      { eapply xexec_seq; [exact X1|].
+        rewrite xexec_cons, (xexec1_S_assign 0 F1 test ec vc tc2 P1), xexec_nil, app_nil_r. reflexivity. }
+      assert (Hbr : exists br dbr ebr nb nb',
+                 (if falsey vc then xeval fuel rho e else xeval fuel rho t) = xeval fuel rho br /\
+                 xgen sg lp nb br = (dbr, ebr, nb', true) /\ n1 + 2 <= nb /\
+                 (if falsey vc then de ++ [XAssign res ee] else dt ++ [XAssign res et]) = dbr ++ [XAssign res ebr]).
+      { destruct (falsey vc); [exists e, de, ee, n2, n'|exists t, dt, et, (n1 + 2), n2]; repeat split; auto; lia. }
+      destruct Hbr as (br & dbr & ebr & nb & nb' & Ebr & Gbr & Lb1 & Elist).
+      rewrite Ebr in He. destruct (xeval fuel rho br) as [[ob tb]|] eqn:Eb; [|discriminate].
+      inversion He; subst o tr; clear He.
+      assert (HRb : R2 rho sg F1' nb) by (eapply R2_mono; [exact HR|lia|exact A1']).
+      destruct (HI br sg lp nb rho F1' ob tb dbr ebr nb' res n HRb Eb Gbr ltac:(unfold res; simpl; lia) ltac:(lia))
+        as (L3 & Hrest).
+      assert (Xi : forall m2 o2 F2,
+                 xexec m2 F1' (dbr ++ [XAssign res ebr]) = Some (o2, F2, tb) ->
+                 xexec (Nat.max (Nat.max m1 1) (S m2)) F
+                   (dc ++ [XAssign test ec; XSIf test (de ++ [XAssign res ee]) (dt ++ [XAssign res et])])
+                 = Some (o2, F2, (tc1 ++ tc2) ++ tb)).
+      { intros m2 o2 F2 X2.
+        assert (Xs : xexec (S m2) F1' [XSIf test (de ++ [XAssign res ee]) (dt ++ [XAssign res et])] = Some (o2, F2, tb)).
+        { apply xexec_single. rewrite (xexec1_S_if _ F1' test _ _ vc) by (unfold F1'; apply set_same).
+          rewrite Elist. exact X2. }
+        pose proof (xexec_seq _ _ F (dc ++ [XAssign test ec]) _ _ _ _ _ _ Xt Xs) as X3.
+        rewrite <- app_assoc in X3. exact X3. }
+      destruct ob as [v|vs|cb pb].
+      * destruct Hrest as (m2 & F2 & X2 & Fr & A2).
+        exists (Nat.max (Nat.max m1 1) (S m2)), F2, ((tc1 ++ tc2) ++ tb), [].
+        split; [apply Xi; exact X2|].
+        split; [simpl; rewrite Fr; reflexivity|].
+        split; [rewrite T1, app_nil_r; reflexivity|].
+        split; [apply (agree_trans n n F F1' F2); [apply N.le_refl|exact A1'|exact A2]|].
+        simpl. apply N.ltb_lt. unfold res. simpl. lia.
+      * intro Hlen. destruct (Hrest Hlen) as (m2 & F2 & F2' & X2 & A2 & Sa).
+        exists (Nat.max (Nat.max m1 1) (S m2)), F2, F2'.
+        split; [rewrite T1; apply Xi; exact X2|].
+        split; [apply (agree_trans n n F F1' F2); [apply N.le_refl|exact A1'|exact A2]|exact Sa].
+      * destruct Hrest as (m2 & F2 & X2 & A2).
+        exists (Nat.max (Nat.max m1 1) (S m2)), F2.
+        split; [rewrite T1; apply Xi; exact X2|].
+        apply (agree_trans n n F F1' F2); [apply N.le_refl|exact A1'|exact A2].
+    + (* the condition raises *)
+      inversion He; subst; clear He.
+      destruct (HS c sg lp n rho F (OExc cc pc) tr dc ec n1 HR Ec Gc) as (L1 & m1 & F1 & X1 & A1).
+      exists m1, F1. split; [apply xexec_stop; [discriminate|exact X1]|exact A1].
+  - (* do *)
+    cbn [xeval] in He. cbn [xgen] in Hg.
+    destruct (xgen sg lp n s) as [[[ds es] n1] k1] eqn:Gs.
+    destruct (xgen sg lp n1 r) as [[[dr er] n2] k2] eqn:Gr.
+    cbv beta iota in Hg. injection Hg as Hg1 Hg2 Hg3 Hk. subst.
+    apply andb_true_iff in Hk as [Hk1 Hk2]. subst.
+    pose proof (xgen_mono _ _ _ _ _ _ _ _ Gs) as Ls.
+    pose proof (xgen_mono _ _ _ _ _ _ _ _ Gr) as Lr.
+    split; [lia|].
+    destruct (xeval fuel rho s) as [[[vs0|?|cs ps] ts]|] eqn:Es; try discriminate.
+    + destruct (xeval fuel rho r) as [[orr trr]|] eqn:Er; [|discriminate]. inversion He; subst; clear He.
+      destruct (HS s sg lp n rho F (OVal vs0) ts ds es n1 HR Es Gs)
+        as (L1 & m1 & F1 & ts1 & ts2 & X1 & P1 & T1 & A1 & N1).
+      assert (HR1 : R2 rho sg F1 n1) by (eapply R2_mono; eauto).
+      destruct (HS r sg lp n1 rho F1 o trr dr pe n' HR1 Er Gr) as (L2 & Hrest).
+      assert (Xs : xexec (Nat.max m1 1) F (ds ++ [XExpr es]) = Some (Normal, F1, ts1 ++ ts2)).
+      { eapply xexec_seq; [exact X1|].
+        rewrite xexec_cons, (xexec1_S_expr 0 F1 es vs0 ts2 P1), xexec_nil, app_nil_r. reflexivity. }
+      destruct o as [v|vs|co po].
+      * destruct Hrest as (m2 & F2 & tr1 & tr2 & X2 & P2 & T2 & A2 & N2).
+        exists (Nat.max (Nat.max m1 1) m2), F2, (ts1 ++ ts2 ++ tr1), tr2.
+        split.
+        { pose proof (xexec_seq _ _ F (ds ++ [XExpr es]) dr _ _ _ _ _ Xs X2) as X3.
+          rewrite <- !app_assoc in X3. exact X3. }
+        split; [exact P2|].
+        split; [subst; rewrite <- ?app_assoc; reflexivity|].
+        split; [eapply agree_trans; eauto|exact N2].
+      * intro Hlen. destruct (Hrest Hlen) as (m2 & F2 & F2' & X2 & A2 & Sa).
+        exists (Nat.max (Nat.max m1 1) m2), F2, F2'.
+        split.
+        { pose proof (xexec_seq _ _ F (ds ++ [XExpr es]) dr _ _ _ _ _ Xs X2) as X3.
+          rewrite <- !app_assoc in X3. subst. rewrite <- ?app_assoc. exact X3. }
+        split; [eapply agree_trans; eauto|exact Sa].
+      * destruct Hrest as (m2 & F2 & X2 & A2).
+        exists (Nat.max (Nat.max m1 1) m2), F2.
+        split.
+        { pose proof (xexec_seq _ _ F (ds ++ [XExpr es]) dr _ _ _ _ _ Xs X2) as X3.
+          rewrite <- !app_assoc in X3. subst. rewrite <- ?app_assoc. exact X3. }
+        eapply agree_trans; eauto.
+    + inversion He; subst; clear He.
+      destruct (HS s sg lp n rho F (OExc cs ps) tr ds es n1 HR Es Gs) as (L1 & m1 & F1 & X1 & A1).
+      exists m1, F1. split; [apply xexec_stop; [discriminate|exact X1]|exact A1].
+  - (* let *)
+    cbn [xeval] in He. cbn [xgen] in Hg.
+    destruct (xgen sg lp n i) as [[[di ei] n1] k1] eqn:Gi. cbv zeta in Hg.
+    destruct (xgen (upd sg x (NLocal x n1)) lp (n1 + 1) b) as [[[db eb] n2] k2] eqn:Gb.
+    cbv beta iota in Hg. injection Hg as Hg1 Hg2 Hg3 Hk. subst.
+    apply andb_true_iff in Hk as [Hk1 Hk2]. subst.
+    pose proof (xgen_mono _ _ _ _ _ _ _ _ Gi) as Li.
+    pose proof (xgen_mono _ _ _ _ _ _ _ _ Gb) as Lb.
+    split; [lia|].
+    destruct (xeval fuel rho i) as [[[vi|?|ci pi] ti]|] eqn:Ei; try discriminate.
+    + destruct (xeval fuel (upd rho x vi) b) as [[ob tb]|] eqn:Eb; [|discriminate]. inversion He; subst; clear He.
+      destruct (HS i sg lp n rho F (OVal vi) ti di ei n1 HR Ei Gi)
+        as (L1 & m1 & F1 & ti1 & ti2 & X1 & P1 & T1 & A1 & N1).
+      set (p := NLocal x n1) in *.
+      assert (HR1 : R2 (upd rho x vi) (upd sg x p) (set F1 p vi) (n1 + 1)) by (eapply R2_let; eauto).
+      destruct (HS b (upd sg x p) lp (n1 + 1) (upd rho x vi) (set F1 p vi) o tb db pe n' HR1 Eb Gb) as (L2 & Hrest).
+      assert (Xs : xexec (Nat.max m1 1) F (di ++ [XAssign p ei]) = Some (Normal, set F1 p vi, ti1 ++ ti2)).
+      { eapply xexec_seq; [exact X1|].
+        rewrite xexec_cons, (xexec1_S_assign 0 F1 p ei vi ti2 P1), xexec_nil, app_nil_r. reflexivity. }
+      assert (Ap : agree_below n F (set F1 p vi)).
+      { apply (agree_trans n n F F1 (set F1 p vi)); [apply N.le_refl|exact A1|]. apply agree_set. unfold p. simpl. lia. }
+      assert (Ag : forall F2, agree_below (n1 + 1) (set F1 p vi) F2 -> agree_below n F F2).
+      { intros F2 A2. apply (agree_trans n n F (set F1 p vi) F2); [apply N.le_refl|exact Ap|].
+        apply (agree_weaken n (n1 + 1)); [lia|exact A2]. }
+      destruct o as [v|vs|co po].
+      * destruct Hrest as (m2 & F2 & tb1 & tb2 & X2 & P2 & T2 & A2 & N2).
+        exists (Nat.max (Nat.max m1 1) m2), F2, (ti1 ++ ti2 ++ tb1), tb2.
+        split.
+        { pose proof (xexec_seq _ _ F (di ++ [XAssign p ei]) db _ _ _ _ _ Xs X2) as X3.
+          rewrite <- !app_assoc in X3. exact X3. }
+        split; [exact P2|].
+        split; [subst; rewrite <- ?app_assoc; reflexivity|].
+        split; [apply Ag; exact A2|exact N2].
+      * intro Hlen. destruct (Hrest Hlen) as (m2 & F2 & F2' & X2 & A2 & Sa).
+        exists (Nat.max (Nat.max m1 1) m2), F2, F2'.
+        split.
+        { pose proof (xexec_seq _ _ F (di ++ [XAssign p ei]) db _ _ _ _ _ Xs X2) as X3.
+          rewrite <- !app_assoc in X3. subst. rewrite <- ?app_assoc. exact X3. }
+        split; [apply Ag; exact A2|exact Sa].
+      * destruct Hrest as (m2 & F2 & X2 & A2).
+        exists (Nat.max (Nat.max m1 1) m2), F2.
+        split.
+        { pose proof (xexec_seq _ _ F (di ++ [XAssign p ei]) db _ _ _ _ _ Xs X2) as X3.
+          rewrite <- !app_assoc in X3. subst. rewrite <- ?app_assoc. exact X3. }
+        apply Ag; exact A2.
+    + inversion He; subst; clear He.
+      destruct (HS i sg lp n rho F (OExc ci pi) tr di ei n1 HR Ei Gi) as (L1 & m1 & F1 & X1 & A1).
+      exists m1, F1. split; [apply xexec_stop; [discriminate|exact X1]|exact A1].
+  - (* call *)
+    cbn [xeval] in He. cbn [xgen] in Hg.
+    change (xgen_args (fun n a => xgen sg lp n a) args n) with (xgen_list sg lp n args) in Hg.
+    destruct (xgen_list sg lp n args) as [[[ds es] n1] k1] eqn:Gl.
+    cbv beta iota in Hg. injection Hg as Hg1 Hg2 Hg3 Hk. subst.
+    destruct (evals (xeval fuel) rho args) as [[[vs|ca pa] ta]|] eqn:Ea; [| |discriminate].
+    + destruct (apply_prim f vs) as [[vr tp]|] eqn:Ep; [|discriminate]. inversion He; subst; clear He.
+      destruct (HL args sg lp n rho F (LVals vs) ta d es n' HR Ea Gl)
+        as (L1 & m & F1 & t1 & t2 & X1 & P1 & T1 & A1 & N1).
+      split; [exact L1|].
+      exists m, F1, t1, (t2 ++ tp).
+      split; [exact X1|].
+      split; [rewrite peval_call, P1, Ep; reflexivity|].
+      split; [subst; rewrite app_assoc; reflexivity|].
+      split; [exact A1|exact N1].
+    + inversion He; subst; clear He.
+      destruct (HL args sg lp n rho F (LExc ca pa) tr d es n' HR Ea Gl) as (L1 & m & F1 & X1 & A1).
+      split; [exact L1|]. exists m, F1. split; [exact X1|exact A1].
+  - (* loop *)
+    cbn [xeval] in He. cbn [xgen] in Hg.
+    change (xgen_binds_with (fun sg n i => xgen sg lp n i) binds sg (n + 1)) with (xgen_binds sg lp (n + 1) binds) in Hg.
+    cbv zeta in Hg.
+    destruct (xgen_binds sg lp (n + 1) binds) as [[[[dbs names] sg1] n1] k1] eqn:Gb.
+    destruct (xgen sg1 names n1 body) as [[[db eb] n2] k2] eqn:Gbody.
+    cbv beta iota in Hg. injection Hg as Hg1 Hg2 Hg3 Hk. subst.
+    apply andb_true_iff in Hk as [Hk Hnd]. apply andb_true_iff in Hk as [Hk1 Hk2]. subst.
+    apply nodupb_NoDup in Hnd.
+    set (res := NTemp n) in *.
+    set (F0 := set F res VNil).
+    assert (A0 : agree_below n F F0) by (apply agree_set; unfold res; simpl; lia).
+    assert (HR0 : R2 rho sg F0 (n + 1)) by (eapply R2_mono; [exact HR|lia|exact A0]).
+    assert (X0 : xexec 1 F [XAssign res (PConst VNil)] = Some (Normal, F0, [])).
+    { rewrite xexec_cons. cbn [xexec1 peval]. rewrite xexec_nil. reflexivity. }
+    pose proof (xgen_mono body sg1 names n1 db eb n' true Gbody) as Lb.
+    pose proof (xgen_binds_mono _ _ _ _ _ _ _ _ _ Gb) as Lbs.
+    split; [lia|].
+    destruct (evbinds (xeval fuel) rho binds) as [[[rho1|cb pb] t1]|] eqn:Ebd; [| |discriminate].
+    + destruct (xloop fuel (map fst binds) rho1 body) as [[ol t2]|] eqn:El; [|discriminate].
+      inversion He; subst o tr; clear He.
+      destruct (HB binds sg lp (n + 1) rho F0 (BEnv rho1) t1 dbs names sg1 n1 HR0 Ebd Gb Hnd)
+        as (L1 & m1 & F1 & X1 & HR1 & A1 & FA & FN & NDn & Hout).
+      assert (Hout' : forall y q, ~ In y (map fst binds) -> sg1 y = Some q -> ~ In q names).
+      { intros y q Hy Hq Hin. rewrite (Hout y Hy) in Hq.
+        rewrite Forall_forall in FN. specialize (FN _ Hin).
+        pose proof (proj2 HR0 y q Hq). lia. }
+      assert (Hres : Forall (fun p => idx res < idx p) names).
+      { eapply Forall_impl; [|exact FN]. intros q Hq. cbv beta in *. unfold res. simpl. lia. }
+      assert (Hres2 : idx res < n1) by (unfold res; simpl; lia).
+      pose proof (loop_sim (S fuel) (fun k Hk => IH k Hk) fuel ltac:(lia) (map fst binds) rho1 body ol t2 sg1 names n1 F1
+                       db eb n' res El HR1 Gbody FA NDn Hout' Hres Hres2) as Hloop.
+      assert (Xall : forall m2 o2 F2,
+                 xwhile m2 F1 (db ++ [XAssign res eb; XBreak]) = Some (o2, F2, t2) ->
+                 xexec (Nat.max 1 (Nat.max m1 (S m2))) F
+                   ([XAssign res (PConst VNil)] ++ dbs ++ [XWhile (db ++ [XAssign res eb; XBreak])])
+                 = Some (o2, F2, t1 ++ t2)).
+      { intros m2 o2 F2 W.
+        assert (Xw : xexec (S m2) F1 [XWhile (db ++ [XAssign res eb; XBreak])] = Some (o2, F2, t2))
+          by (apply xexec_single; cbn [xexec1]; exact W).
+        pose proof (xexec_seq _ _ F0 dbs _ _ _ _ _ _ X1 Xw) as X2.
+        pose proof (xexec_seq _ _ F [XAssign res (PConst VNil)] _ _ _ _ _ _ X0 X2) as X3.
+        exact X3. }
+      assert (Ag : forall F2, agree_below (idx res) F1 F2 -> agree_below n F F2).
+      { intros F2 A2. apply (agree_trans n n F F0 F2); [apply N.le_refl|exact A0|].
+        apply (agree_trans n n F0 F1 F2); [apply N.le_refl|apply (agree_weaken n (n + 1)); [lia|exact A1]|].
+        exact A2. }
+      destruct ol as [v|?|cl pl].
+      * destruct Hloop as (m2 & F2 & W & Fr & A2).
+        exists (Nat.max 1 (Nat.max m1 (S m2))), F2, (t1 ++ t2), [].
+        split; [apply Xall; exact W|].
+        split; [simpl; rewrite Fr; reflexivity|].
+        split; [rewrite app_nil_r; reflexivity|].
+        split; [apply Ag; exact A2|].
+        simpl. apply N.ltb_lt. unfold res. simpl. lia.
+      * destruct Hloop.
+      * destruct Hloop as (m2 & F2 & W & A2).
+        exists (Nat.max 1 (Nat.max m1 (S m2))), F2.
+        split; [apply Xall; exact W|apply Ag; exact A2].
+    + (* an initialiser raises *)
+      inversion He; subst o tr; clear He.
+      destruct (HB binds sg lp (n + 1) rho F0 (BExc cb pb) t1 dbs names sg1 n1 HR0 Ebd Gb Hnd)
+        as (L1 & m1 & F1 & X1 & A1).
+      exists (Nat.max 1 m1), F1.
+      split.
+      { assert (X2 : xexec m1 F0 (dbs ++ [XWhile (db ++ [XAssign res eb; XBreak])]) = Some (Exc cb pb, F1, t1))
+          by (apply xexec_stop; [discriminate|exact X1]).
+        pose proof (xexec_seq _ _ F [XAssign res (PConst VNil)] _ _ _ _ _ _ X0 X2) as X3. exact X3. }
+      apply (agree_trans n n F F0 F1); [apply N.le_refl|exact A0|apply (agree_weaken n (n + 1)); [lia|exact A1]].
+  - (* recur *)
+    cbn [xeval] in He. cbn [xgen] in Hg.
+    change (xgen_args (fun n a => xgen sg lp n a) args n) with (xgen_list sg lp n args) in Hg.
+    destruct (xgen_list sg lp n args) as [[[ds es] n1] k1] eqn:Gl.
+    cbv beta iota in Hg. injection Hg as Hg1 Hg2 Hg3 Hk. subst.
+    destruct (evals (xeval fuel) rho args) as [[[vs|ca pa] ta]|] eqn:Ea; [| |discriminate].
+    + inversion He; subst; clear He.
+      destruct (HL args sg lp n rho F (LVals vs) tr ds es n' HR Ea Gl)
+        as (L1 & m & F1 & t1 & t2 & X1 & P1 & T1 & A1 & N1).
+      split; [exact L1|]. intro Hlen.
+      destruct (set_all_total F1 lp vs (eq_sym Hlen)) as [F'' Sa].
+      exists (Nat.max m 2), F1, F''.
+      split; [|split; [exact A1|exact Sa]].
+      assert (Xr : xexec 2 F1 [assign_all lp es; XContinue] = Some (Cont, F'', t2)).
+      { rewrite xexec_cons, (exec_assign_all 1 F1 lp es vs t2 F'' P1 Sa), xexec_cons. cbn [xexec1].
+        rewrite app_nil_r. reflexivity. }
+      pose proof (xexec_seq _ _ F ds _ _ _ _ _ _ X1 Xr) as X2. rewrite T1. exact X2.
+    + inversion He; subst; clear He.
+      destruct (HL args sg lp n rho F (LExc ca pa) tr ds es n' HR Ea Gl) as (L1 & m & F1 & X1 & A1).
+      split; [exact L1|]. exists m, F1. split; [apply xexec_stop; [discriminate|exact X1]|exact A1].
+  - (* throw *)
+    cbn [xeval] in He. cbn [xgen] in Hg.
+    destruct (xgen sg lp n e) as [[[dx ex] n1] k1] eqn:Gx.
+    cbv beta iota in Hg. injection Hg as Hg1 Hg2 Hg3 Hk. subst.
+    destruct (xeval fuel rho e) as [[[v|?|ce pe0] te]|] eqn:Ee; try discriminate.
+    + destruct v as [| | | |cv pv]; try discriminate.
+      inversion He; subst; clear He.
+      destruct (HS e sg lp n rho F (OVal (VExc cv pv)) tr dx ex n' HR Ee Gx)
+        as (L1 & m1 & F1 & t1 & t2 & X1 & P1 & T1 & A1 & N1).
+      split; [exact L1|]. exists (Nat.max m1 1), F1. split; [|exact A1].
+      rewrite T1. eapply xexec_seq; [exact X1|].
+      apply xexec_single. apply xexec1_S_raise. exact P1.
+    + inversion He; subst; clear He.
+      destruct (HS e sg lp n rho F (OExc ce pe0) tr dx ex n' HR Ee Gx) as (L1 & m1 & F1 & X1 & A1).
+      split; [exact L1|]. exists m1, F1. split; [apply xexec_stop; [discriminate|exact X1]|exact A1].
+  - (* try *)
+    rewrite xeval_S_try in He.
+    apply xgen_try_inv in Hg as (db & eb & n1 & hh & n2 & f & Gb & Hh & Hf & -> & -> & L1 & L2 & L3).
+    set (res := NTemp n) in *.
+    split; [lia|].
+    unfold src_try in He.
+    destruct (src_r1 fuel rho body h hb) as [[o1 t1]|] eqn:E1; [|destruct hasfin; discriminate].
+    destruct (try_r1_sim fuel HS rho sg lp F n body h hb db eb n1 n2 o1 t1 hh HR Gb Hh E1) as (m1 & F1 & Hm & A1).
+    fold res in Hm.
+    assert (Hp : exists o1', py_r1 m1 F (db ++ [XAssign res eb]) hh = Some (o1', F1, t1) /\
+                 match o1 with OVal v => o1' = Normal /\ F1 res = Some v | OExc c p => o1' = Exc c p | ORec _ => False end).
+    { destruct o1 as [v|?|c p]; [destruct Hm as [Hm Fr]; exists Normal; auto|destruct Hm|exists (Exc c p); auto]. }
+    clear Hm. destruct Hp as (o1' & Hp & Ho).
+    destruct hasfin; cbn [negb] in He; cbv iota in He.
+    + destruct Hf as (df & ef & Gf & ->).
+      assert (HRf : R2 rho sg F1 n2) by (eapply R2_mono; [exact HR|lia|exact A1]).
+      destruct (xeval fuel rho fe) as [[[vf|?|cf pf] tf]|] eqn:Ef; try discriminate.
+      * inversion He; subst o tr; clear He.
+        destruct (HS fe sg lp n2 rho F1 (OVal vf) tf df ef n' HRf Ef Gf)
+          as (Lf & m2 & F2 & tf1 & tf2 & X2 & P2 & T2 & A2 & N2).
+        assert (Xf : xexec (Nat.max m2 1) F1 (df ++ [XExpr ef]) = Some (Normal, F2, tf)).
+        { rewrite T2. eapply xexec_seq; [exact X2|].
+          rewrite xexec_cons, (xexec1_S_expr 0 F2 ef vf tf2 P2), xexec_nil, app_nil_r. reflexivity. }
+        assert (Xall : xexec (S (Nat.max m1 (Nat.max m2 1))) F [XSTry (db ++ [XAssign res eb]) hh (df ++ [XExpr ef])]
+                       = Some (o1', F2, t1 ++ tf)).
+        { apply xexec_single. rewrite xexec1_S_try.
+          rewrite (py_r1_mono m1 _ _ _ _ _ (Nat.le_max_l _ _) Hp). unfold py_fin.
+          rewrite (xexec_mono _ (Nat.max m1 (Nat.max m2 1)) _ _ _ (Nat.le_max_r _ _) Xf). reflexivity. }
+        assert (Ag : agree_below n F F2).
+        { apply (agree_trans n n F F1 F2); [apply N.le_refl|exact A1|apply (agree_weaken n n2); [lia|exact A2]]. }
+        destruct o1 as [v|?|c p]; [destruct Ho as [-> Fr]|destruct Ho|subst o1'].
+        -- exists (S (Nat.max m1 (Nat.max m2 1))), F2, (t1 ++ tf), [].
+           split; [exact Xall|].
+           split; [simpl; rewrite (A2 res) by (unfold res; simpl; lia); rewrite Fr; reflexivity|].
+           split; [rewrite app_nil_r; reflexivity|].
+           split; [exact Ag|]. simpl. apply N.ltb_lt. unfold res. simpl. lia.
+        -- exists (S (Nat.max m1 (Nat.max m2 1))), F2. split; [exact Xall|exact Ag].
+      * (* the finally clause raises: its exception replaces the outcome *)
+        inversion He; subst o tr; clear He.
+        destruct (HS fe sg lp n2 rho F1 (OExc cf pf) tf df ef n' HRf Ef Gf) as (Lf & m2 & F2 & X2 & A2).
+        assert (Xf : xexec m2 F1 (df ++ [XExpr ef]) = Some (Exc cf pf, F2, tf))
+          by (apply xexec_stop; [discriminate|exact X2]).
+        exists (S (Nat.max m1 m2)), F2.
+        split.
+        { apply xexec_single. rewrite xexec1_S_try.
+          rewrite (py_r1_mono m1 _ _ _ _ _ (Nat.le_max_l _ _) Hp). unfold py_fin.
+          rewrite (xexec_mono _ (Nat.max m1 m2) _ _ _ (Nat.le_max_r _ _) Xf). reflexivity. }
+        apply (agree_trans n n F F1 F2); [apply N.le_refl|exact A1|apply (agree_weaken n n2); [lia|exact A2]].
+    + destruct Hf as [-> ->]. inversion He; subst o1 t1; clear He.
+      assert (Xall : xexec (S m1) F [XSTry (db ++ [XAssign res eb]) hh []] = Some (o1', F1, tr)).
+      { apply xexec_single. rewrite xexec1_S_try, Hp. unfold py_fin. rewrite xexec_nil, app_nil_r. reflexivity. }
+      destruct o as [v|?|c p]; [destruct Ho as [-> Fr]|destruct Ho|subst o1'].
+      * exists (S m1), F1, tr, [].
+        split; [exact Xall|].
+        split; [simpl; rewrite Fr; reflexivity|].
+        split; [rewrite app_nil_r; reflexivity|].
+        split; [exact A1|]. simpl. apply N.ltb_lt. unfold res. simpl. lia.
+      * exists (S m1), F1. split; [exact Xall|exact A1].
+Qed.
